@@ -12,6 +12,9 @@ pub mod ledger;
 pub mod util;
 pub mod hist;
 pub mod acc;
+pub mod iter;
+pub mod serdefam;
+pub mod ctor;
 
 #[global_allocator]
 static GLOBAL: canary::Canary = canary::Canary;
